@@ -543,6 +543,16 @@ class Exec:
             arr = z3.Store(arr, k, v)
         return self.new_list(z3.IntVal(len(vals)), arr, kind)
 
+    def new_dict_from(self, pairs):
+        has = z3.K(Val, z3.BoolVal(False))
+        val = z3.K(Val, L.NoneV)
+        keys = z3.K(I, L.NoneV)
+        for k, (kv, vv) in enumerate(pairs):
+            has = z3.Store(has, kv, z3.BoolVal(True))
+            val = z3.Store(val, kv, vv)
+            keys = z3.Store(keys, k, kv)
+        return self.new_dict(z3.IntVal(len(pairs)), has, val, keys)
+
     def new_dict(self, dlen=None, has=None, val=None, keys=None):
         r = self.alloc()
         if dlen is None:
